@@ -16,6 +16,7 @@ from . import numeric as N
 from . import tables as TB
 
 P_KINDS = {'plain', 'list', 'dict', 'tuple', 'slice', 'element', 'P', 'callback-result', 'lambda', 'same'}
+LOGGER_METHODS = {'debug', 'info', 'warning', 'error', 'exception', 'critical', 'log', 'isEnabledFor', 'getEffectiveLevel'}
 DATA_METHODS = TB.STR_METHODS | TB.LIST_METHODS | TB.DICT_METHODS | {
     'group', 'groups', 'groupdict', 'start', 'end', 'span', 'quantize', 'to_integral_value', 'normalize', 'as_tuple',
     'is_nan', 'is_finite', 'is_infinite', 'copy_abs', 'copy_negate', 'sqrt', 'ln', 'log10', 'exp', 'adjusted',
@@ -266,6 +267,8 @@ def check(chk: Check) -> None:
         fi = F.func(q)
         bad = []
         for n in ast.walk(fi.node):
+            if n in common.logger_call_nodes(F):
+                continue            # type(self).__name__ in a log line
             if isinstance(n, ast.Call) and isinstance(n.func, ast.Name) and n.func.id in TB.REFLECTIVE_BUILTINS \
                     and F.resolve_name(fi.module, n.func.id)[0] == 'builtin' and n.func.id not in ('super', 'iter', 'next', 'id'):
                 bad.append('`%s`' % norm(n))
@@ -674,7 +677,15 @@ def classify_callee(F, e: Event) -> Tuple[str, str]:
         if isinstance(recv, tuple) and recv[:1] == ('attr',) and recv[2] in ('lex', 'yacc', 'lexer', 'parser') :
             return ('trusted', 'PLY object method .%s' % m)
         if isinstance(recv, tuple) and recv[:1] == ('ref',) and recv[1] == 'modvar':
+            if m in LOGGER_METHODS and common.is_module_logger(F, recv[2]):
+                return ('trusted', 'diagnostic channel of the host (logging.Logger.%s)' % m)
             return ('pure' if m in DATA_METHODS else 'unknown', 'method .%s on module-level %s' % (m, recv[2]))
+        if m in ('add', 'discard', 'remove', 'clear', 'update', 'append', 'extend', 'insert', 'pop', 'setdefault', 'popitem', 'sort', 'reverse',
+                 'difference_update', 'intersection_update', 'symmetric_difference_update') and isinstance(recv, tuple) and (
+                recv[:1] in (('set',), ('list',), ('dict',)) or (recv[:1] == ('call',) and recv[2] in (
+                    ('ref', 'builtin', 'set'), ('ref', 'builtin', 'list'), ('ref', 'builtin', 'dict'), ('ref', 'ext', 'collections.deque'),
+                    ('ref', 'ext', 'collections.OrderedDict')))):
+            return ('pure', 'update of a container built by this call (.%s)' % m)
         if m in DATA_METHODS:
             return ('pure', 'data method .%s' % m)
         if m in ('make_scope', 'push_scope', 'pop_scope'):
